@@ -2563,7 +2563,8 @@ class WCS(GWCSAPIMixin):
 
         for iax in input_axes:
             iiax = int(np.searchsorted(used_hdr_axes, iax))
-            hdr.insert(iiax + offset + 1, (f'NAXIS{iax + 1:d}', int(max(bounding_box[iiax])) + 1))
+            hdr.insert(iiax + offset + 1, (f'NAXIS{iax + 1:d}', int(max(bounding_box[iax])) + 1))
+            used_hdr_axes.insert(iiax, iax)
 
         # 1D grid coordinates:
         gcrds = []
